@@ -450,13 +450,24 @@ def prune_dataflow_cache(world: World):
     """
     if not world.use_cache:
         return
-    min_cache_time = min(s.last_step.time for s in world.sims.values())
+    # Time-shifted connections look further back into the cache.
+    max_shift = max(
+        (delay.tiers[0] for s in world.sims.values() for _, delay in s.pulled_inputs),
+        default=0,
+    )
+    min_cache_time = min(s.last_step.time for s in world.sims.values()) - max_shift
     for sim in world.sims.values():
         if sim.outputs:
+            # The newest entry at or before min_cache_time is still the
+            # valid output for that time, so it has to be kept.
+            keep_from = max(
+                (time for time in sim.outputs if time <= min_cache_time),
+                default=min_cache_time,
+            )
             sim.outputs = {
                 time: cache
                 for time, cache in sim.outputs.items()
-                if time >= min_cache_time
+                if time >= keep_from
             }
 
 
